@@ -21,18 +21,18 @@
        All are true of well-formed UTF-8 at character boundaries; they are stated as hypotheses.  text_ok except its
        last clause is evaluated by the driver on every generated haystack (text_ok_b, c03_text_check_sound), the last
        clause is what the Loop1CharBody semantics checks itself; text_ok is proved for the ASCII indexer on every byte
-       string, and text_ok, text_enc and al for both indexers on ASCII text, where the theorem is left without any
-       hypothesis on the text or the node beyond qok (c03_optimize_sound_*_ascii_text).  For non-ASCII text text_enc is
-       not evaluated.
+       string, and text_ok, text_enc and al for both indexers on ASCII text (c03_optimize_sound_*_ascii_text); and text_ok
+       and text_enc are proved for the UTF-8 indexer on every well-formed UTF-8 text (Proofs/Utf8Facts.v, Utf8Valid.v,
+       OptTextUtf8.v), so that c03_optimize_sound_utf8_text has no hypothesis on the text left.
    Refinement of nodes gives equality of the leftmost search from a well-formed start, also after the trailing Goal
    is stripped (ir_top); with the C02/C04 theorems (both interpreter models return exactly that search) this is the
    statement of C03 for the models.  The whole pipeline is also compared on the implementation (optimised against
    unoptimised, every generated case) on every run. *)
 From RV Require Import Base.
-From RV.Model Require Import Utf8 Indexer CodePointSet Insn IR Optimizer Unfold Emit Fold.
+From RV.Model Require Import Utf8 Indexer CodePointSet Insn IR Optimizer Unfold Emit Pike Exec Fold.
 From RV.Spec Require Import IRSem IRShape.
 From RV.Gen Require Import FoldTables.
-From RV.Proofs Require Import IndexerFacts OptTextAscii OptTextCheck OptDD OptMono OptWalk OptRel OptDecat OptFails OptEmpties OptUnroll OptPromote OptBrackets OptBytes OptTop.
+From RV.Proofs Require Import IndexerFacts Utf8Facts Utf8Valid OptTextUtf8 OptTextAscii OptTextCheck OptDD OptMono OptWalk OptRel OptDecat OptFails OptEmpties OptUnroll OptPromote OptBrackets OptBytes OptTop OptEmit PikeDen PikeCorrect PikeTop.
 
 (* the relation is a congruence: the walk lifts a sound rewrite rule to a pass *)
 Theorem c03_walk_lifts_rewrite_rule : forall ix unicode utf16 h (okp : nat -> Prop) (func : bool -> node -> R action),
@@ -161,6 +161,12 @@ Theorem c03_text_check_sound : forall ix unicode h, text_ok_b ix h = true ->
   text_ok ix unicode h (bnd h).
 Proof. exact text_ok_b_sound. Qed.
 
+(* whatever the text: optimize() keeps the node invariant and the number of capture groups (no group is deleted or
+   duplicated — the accessors of C16 and the capture table of C06 rely on it) *)
+Theorem c03_optimize_preserves_invariants : forall u16 n n', optimize u16 n = Ok n' -> qok n = true ->
+  qok n' = true /\ ng n' = ng n.
+Proof. exact optimize_invariants. Qed.
+
 (* ---- where no UTF-8 theory is needed, nothing is left as a hypothesis ---- *)
 (* the text hypotheses hold of every byte string read through the ASCII indexer (the *_ascii entry points), every
    position of the text being well-formed, and every node stays inside the text *)
@@ -201,6 +207,77 @@ Proof.
   intros fold unicode utf16 h Ha u16 n n' E Hq.
   exact (c03_optimize_sound (utf8_indexer fold) unicode utf16 h (inside h) (text_ok_utf8_on_ascii fold h Ha unicode)
            (text_enc_utf8_on_ascii fold h Ha) u16 n n' E Hq (al_all_utf8_on_ascii fold h unicode utf16 n)).
+Qed.
+
+(* ---- well-formed UTF-8 text read through the UTF-8 indexer: the text hypotheses are theorems ---- *)
+(* the text is a sequence of well-formed characters (Unicode Table 3-7; utf8_chars decides it and is evaluated by the
+   driver on every generated haystack); the well-formed positions are the character boundaries.  The facts about single
+   characters (decoding gives a scalar value whose encoding is the character, lead byte and length agree, only
+   trailing bytes are continuation bytes; the encoder gives a well-formed character that decodes back) are finite and
+   checked by evaluation over all byte tuples / all scalar values (Proofs/Utf8Facts.v). *)
+Theorem c03_text_ok_utf8 : forall fold cs unicode, wf_text cs -> text_ok (utf8_indexer fold) unicode (concat cs) (Utf8Valid.bnd cs).
+Proof. intros fold cs unicode Hw. exact (text_ok_utf8 fold cs Hw unicode). Qed.
+
+Theorem c03_text_enc_utf8 : forall fold cs, wf_text cs -> text_enc (utf8_indexer fold) (concat cs) (Utf8Valid.bnd cs).
+Proof. intros fold cs Hw. exact (text_enc_utf8 fold cs Hw false). Qed.
+
+(* optimize(), either build, the UTF-8 indexer on any well-formed UTF-8 text, a pattern without backreferences and
+   string sets, a start at a character boundary: no hypothesis left on the text *)
+Theorem c03_optimize_sound_utf8_text : forall fold unicode utf16 h cs, utf8_chars (length h) h = Some cs ->
+  forall u16 n n', optimize u16 n = Ok n' -> qok n = true -> simple n = true ->
+  exists K, forall fuel ngroups tries p r, fuel_ok (fuel + K) -> Utf8Valid.bnd cs p ->
+    ir_search (utf8_indexer fold) unicode utf16 h fuel (ir_top n) ngroups tries p = Some r ->
+    ir_search (utf8_indexer fold) unicode utf16 h (fuel + K) (ir_top n') ngroups tries p = Some r.
+Proof.
+  intros fold unicode utf16 h cs Hch u16 n n' E Hq Hs.
+  destruct (utf8_chars_ok _ _ _ Hch) as [Hw Hcat]. subst h.
+  exact (c03_optimize_sound_simple (utf8_indexer fold) unicode utf16 (concat cs) (Utf8Valid.bnd cs)
+           (text_ok_utf8 fold cs Hw unicode) (text_enc_utf8 fold cs Hw unicode) u16 n n' E Hq Hs).
+Qed.
+
+(* Non-vacuity of the last theorem: "éa€" splits into three well-formed characters; 0, 2, 3 and 6 are its boundaries *)
+Example c03_utf8_example :
+  utf8_chars 6 [195; 169; 97; 226; 130; 172] = Some [[195; 169]; [97]; [226; 130; 172]] /\
+  Utf8Valid.bnd [[195; 169]; [97]; [226; 130; 172]] 2.
+Proof. split; [vm_compute; reflexivity|]. exists [[195; 169]], [[97]; [226; 130; 172]]. split; reflexivity. Qed.
+
+(* ---- down to the programs the PikeVM runs ---- *)
+Lemma top_shape_ir_top n body : top_shape n body -> ir_top n = NCat body.
+Proof.
+  intros [->|[[-> ->]|[-> ->]]]; [|reflexivity|reflexivity].
+  cbn [ir_top]. rewrite rev_app_distr. cbn [rev app]. rewrite rev_involutive. reflexivity.
+Qed.
+
+(* the program emitted for the optimized node and the program emitted for the original node give the PikeVM the same
+   answer: the leftmost-first match of the IR semantics of the original pattern (well-formed UTF-8 text, a start at a
+   character boundary, a pattern without backreferences and string sets; top_shape, ir_wf and qok are evaluated by the
+   driver on every IR; K, a constant of the pattern, is the fuel slack of the optimizer theorem: the sum of the slacks
+   of the rewrites performed, at most 4 each — the proof does not bound it numerically) *)
+Theorem c03_pikevm_same_answer_after_optimize :
+  forall fold h cs utf16 unicode ml n n' body body' prog names prog' names',
+  utf8_chars (length h) h = Some cs ->
+  optimize utf16 n = Ok n' -> qok n = true -> simple n = true ->
+  top_shape n body -> top_shape n' body' ->
+  emit utf16 unicode ml n = Ok (prog, names) -> emit utf16 unicode ml n' = Ok (prog', names') ->
+  ir_wf (NCat body) = true -> ir_wf (NCat body') = true ->
+  exists K, forall fuel tries p r, fuel_ok (fuel + K) -> Utf8Valid.bnd cs p ->
+  ir_search (utf8_indexer fold) unicode utf16 h fuel (NCat body) (p_groups prog) tries p = Some r ->
+  exists f0 k k', forall pfuel m budget, (f0 <= pfuel)%nat -> m + k <= budget -> m + k' <= budget ->
+    pk_search (utf8_indexer fold) prog h budget pfuel tries (pk_init_state prog p) m = (result_of (utf8_indexer fold) h r, m + k) /\
+    pk_search (utf8_indexer fold) prog' h budget pfuel tries (pk_init_state prog' p) m = (result_of (utf8_indexer fold) h r, m + k').
+Proof.
+  intros fold h cs utf16 unicode ml n n' body body' prog names prog' names' Hch Eo Hq Hs Ht Ht' Ee Ee' Hwf Hwf'.
+  destruct (optimize_invariants utf16 n n' Eo Hq) as [Hq' Hng].
+  assert (Hg : p_groups prog' = p_groups prog).
+  { rewrite (emit_program_groups utf16 unicode ml n prog names Hq Ee), (emit_program_groups utf16 unicode ml n' prog' names' Hq' Ee'). exact Hng. }
+  destruct (c03_optimize_sound_utf8_text fold unicode utf16 h cs Hch utf16 n n' Eo Hq Hs) as [K HK].
+  exists K. intros fuel tries p r Hfuel Hp Es.
+  rewrite <- (top_shape_ir_top n body Ht) in Es.
+  pose proof (HK fuel (p_groups prog) tries p r Hfuel Hp Es) as Es'.
+  rewrite (top_shape_ir_top n body Ht) in Es. rewrite (top_shape_ir_top n' body' Ht') in Es'. rewrite <- Hg in Es'.
+  destruct (pike_emit_correct (utf8_indexer fold) h utf16 unicode ml n body prog names fuel tries p r Ht Ee Hwf Es) as (f1 & k & H1).
+  destruct (pike_emit_correct (utf8_indexer fold) h utf16 unicode ml n' body' prog' names' (fuel + K) tries p r Ht' Ee' Hwf' Es') as (f2 & k' & H2).
+  exists (Nat.max f1 f2), k, k'. intros pfuel m budget Hf Hb Hb'. split; [apply H1; [lia|exact Hb]|apply H2; [lia|exact Hb']].
 Qed.
 
 (* Non-vacuity: (?:a{2,3}|)[xy](?:) — a loop that unroll_loops and promote_1char_loops rewrite, a bracket that
